@@ -57,6 +57,7 @@ def run(ctx: Ctx):
     G10 = grammar(ctx)
     check_block_items(ctx, "R10.b", G10, comment_rule_name(ctx, G10))
     check_single_pass_lookups(ctx, "R10.b")
+    check_entries_linewise(ctx, "R10.b", G10)
 
     ctx.rule("R10.e", "a name is defined at most once: of two definitions that compare equal (equality ignores the expression tree) a set keeps the one inserted first, i.e. the one written first", floor=3)
     from .c08 import check_redefinition_guard
@@ -128,3 +129,36 @@ def check_single_pass_lookups(ctx: Ctx, rule: str):
                     ctx.ok(rule, key, f"`{rec}` is only asked for the name being defined", f.where(loop))
     if not n_loops:
         ctx.undecided(rule, "src/gotranx/transformer.py::TreeToODE::single-pass", "no loop of the transformer that records what it has seen in a dict / set was found", "")
+
+
+def check_entries_linewise(ctx: Ctx, rule: str, G):
+    """What a block handler of the transformer makes of one line depends on that line only: its value is a comprehension over
+    the lines, or a loop whose carried state is nothing but the list of results so far.  A unit, comment or component
+    remembered from the line before (a local set on one iteration and read on the next) makes the atoms depend on the
+    order of the lines."""
+    from sa import av as _av
+
+    from . import util
+
+    names = list(G.handlers(G.block_rule_name())) + ["states", "parameters"]
+    for h in names:
+        f = ctx.sm.func("transformer.py", f"TreeToODE.{h}", required=False)
+        if f is None:
+            continue
+        v = util.value_of(ctx, f)
+        key = f.key("line-by-line")
+        if _av.has_unk(v):
+            ctx.undecided(rule, key, f"what TreeToODE.{h} returns is not understood", f.where())
+            continue
+        folds = _av.find_all(v, "fold")
+        carried = []
+        for fo in folds:
+            body = fo[4]
+            acc = ("acc", fo[1])
+            items = body[1] if body[0] == "list" else (body,)
+            for it in items:
+                if it == ("spread", acc) or it == acc:
+                    continue  # the results so far, handed on unchanged
+                if any(a_[:2] == acc for a_ in _av.find_all(it, "acc")):
+                    carried.append(it)
+        ctx.check(not carried, rule, key, "each entry is made from its own line only", f"TreeToODE.{h}: an entry is built from state carried over from the lines before it (`{_av.show(carried[0])[:110] if carried else ''}`): a unit / comment / component set on one line is inherited by the next, so permuting the lines of a block changes the atoms", f.where())
